@@ -2987,6 +2987,7 @@ int32_t writeRecordHeader(ssl_t *ssl, uint8_t type, uint8_t hsType,
                     ssl->userPtr) < 0)
             {
                 psTraceInfo("WARNING: psGetPrngLocked failed\n");
+                return MATRIXSSL_ERROR;
             }
             *c += ssl->cipher->blockSize;
         }
@@ -2998,6 +2999,7 @@ int32_t writeRecordHeader(ssl_t *ssl, uint8_t type, uint8_t hsType,
         if (psGetPrngLocked(*c, ssl->enBlockSize, ssl->userPtr) < 0)
         {
             psTraceInfo("WARNING: psGetPrngLocked failed\n");
+            return MATRIXSSL_ERROR;
         }
         *c += ssl->enBlockSize;
     }
